@@ -170,6 +170,7 @@ type world struct {
 	phUsed  map[uintptr]bool
 	kept    map[[2]int]mocker.ExportedMocker // mocker objects the "user" held on to
 	sess    map[[2]int]bool                  // true: every instruction for (builder,target) goes through the kept object
+	cbs     map[[2]int]interface{}           // (target, value) -> the one callback value used for it
 	// poisoned: this builder's mocker for the target still carries an origin placeholder goom refused
 	poisoned map[[2]int]bool
 	rng      *vmon.Rng
@@ -186,6 +187,7 @@ func newWorld(rep *vmon.Report, img *vmon.TextImage, ts []*tgt, ns []neighbour, 
 	w := &world{rep: rep, img: img, ts: ts, ns: ns, phUsed: phUsedGlobal}
 	w.amb = make([]bool, len(ts))
 	w.kept = map[[2]int]mocker.ExportedMocker{}
+	w.cbs = map[[2]int]interface{}{}
 	w.sess = map[[2]int]bool{}
 	w.poisoned = map[[2]int]bool{}
 	for i := 0; i < nb; i++ {
@@ -337,7 +339,13 @@ func (w *world) apply(o op) {
 			if w.sess[[2]int{o.b, o.t}] {
 				w.hist[len(w.hist)-1] += "(kept handle)"
 			}
-			w.lookup(o.b, o.t).Apply(w.ts[o.t].cb(v))
+			// the same callback VALUE every time this builder applies this variant to this target (a test helper that
+			// installs its one stub again), not a fresh closure per apply
+			ck := [2]int{o.t, v}
+			if _, ok := w.cbs[ck]; !ok {
+				w.cbs[ck] = w.ts[o.t].cb(v)
+			}
+			w.lookup(o.b, o.t).Apply(w.cbs[ck])
 			w.cfgs[o.b][o.t] = cfg{mode: "cb", cbVal: v}
 			w.cur[o.t], w.amb[o.t] = o.b, false
 			w.touched[o.b][o.t] = true
